@@ -467,7 +467,9 @@ pub fn catalogue(f: &Frame, rng: &mut Rng) -> Vec<Mal> {
             },
             Seg::Field { label, text, content } => {
                 if label == "proto.name" {
-                    for nm in [&b"MQTt"[..], b"MQIsdp", b"MQTT", b"", b"MQTTT", &[0x4D, 0xFF]] {
+                    for nm in [&b"MQTt"[..], b"MQIsdp", b"MQTT", b"", b"MQTTT", &[0x4D, 0xFF],
+                               "xxxxxxxxx😀😀".as_bytes(), "ééééééééééééééééé".as_bytes(), "MQTT\u{0}".as_bytes(),
+                               &[b'a'; 300][..]] {
                         if nm != &content[..] {
                             let mut g = f.clone();
                             g.body[i] = Seg::Field { label: label.clone(), text: *text, content: nm.to_vec() };
